@@ -284,35 +284,37 @@ Fixpoint digits_val (acc : Z) (s : string) : Z :=
 (* e[-+]\d+ at the start of s: (lexeme, rest) *)
 Definition lex_exponent (s : string) : option (string * string) :=
   match s with
-  | String "e" (String sg r) =>
-      if Ascii.eqb sg "+" || Ascii.eqb sg "-" then
+  | String e (String sg r) =>
+      if Ascii.eqb e "e" && (Ascii.eqb sg "+" || Ascii.eqb sg "-") then
         let '(d, r2) := span is_digit r in
-        match d with EmptyString => None | _ => Some (String "e" (String sg d), r2) end
+        match d with EmptyString => None | _ => Some (String e (String sg d), r2) end
       else None
   | _ => None
   end.
 (* FLOAT | INT at the start of s (after an optional sign [sg]); None when no digit follows *)
+Definition with_exp (c : tcfg) (sg mant rest : string) (dflt : token * string) : token * string :=
+  if fx_float c then
+    match lex_exponent rest with
+    | Some (e, r3) => (TFloat (sg ++ mant ++ e), r3)
+    | None => dflt
+    end
+  else dflt.
 Definition lex_number (c : tcfg) (sg : string) (s : string) : option (token * string) :=
   let '(d, r) := span is_digit s in
   match d with
   | EmptyString => None
   | _ =>
       let int_tok := (TInt (if String.eqb sg "-" then - digits_val 0 d else digits_val 0 d), r) in
-      let with_exp (mant rest : string) (dflt : token * string) :=
-        if fx_float c then
-          match lex_exponent rest with
-          | Some (e, r3) => (TFloat (sg ++ mant ++ e), r3)
-          | None => dflt
-          end
-        else dflt in
       match r with
-      | String "." r1 =>
-          let '(d2, r2) := span is_digit r1 in
-          match d2 with
-          | EmptyString => Some (with_exp d r int_tok)
-          | _ => let m := (d ++ "." ++ d2)%string in Some (with_exp m r2 (TFloat (sg ++ m), r2))
-          end
-      | _ => Some (with_exp d r int_tok)
+      | String dot r1 =>
+          if Ascii.eqb dot "." then
+            let '(d2, r2) := span is_digit r1 in
+            match d2 with
+            | EmptyString => Some (with_exp c sg d r int_tok)
+            | _ => let m := (d ++ "." ++ d2)%string in Some (with_exp c sg m r2 (TFloat (sg ++ m), r2))
+            end
+          else Some (with_exp c sg d r int_tok)
+      | EmptyString => Some (with_exp c sg d r int_tok)
       end
   end.
 Definition other1 : list ascii :=
@@ -950,6 +952,104 @@ Definition case_lexprint (c : tcfg) (tr : list (Z * string)) (m : modul) : bool 
   end.
 Definition okfail (v : val) : val := match v with VOk x => VOk x | _ => VInternal end.
 
+(* ------------------------------------------------------------------ lexable layouts *)
+Definition is_ident (s : string) : bool :=
+  match s with
+  | EmptyString => false
+  | String ch r => is_alpha ch && match span is_idchar r with (_, EmptyString) => true | _ => false end
+  end.
+
+(* what may follow a word-like token (ID, INT, FLOAT): nothing, or a character that neither
+   continues an identifier / number nor is a '.' *)
+Definition sep_word (rest : string) : bool :=
+  match rest with
+  | EmptyString => true
+  | String ch _ => negb (is_idchar ch) && negb (Ascii.eqb ch ".")
+  end.
+(* what may follow an operator token: '<' '>' '=' must not be followed by '<' '>' '=' (longest
+   match <<, >>, ==, <=, >=), '-' not by a digit or a letter (-5, -inf) *)
+Definition sep_op (s rest : string) : bool :=
+  match rest with
+  | EmptyString => true
+  | String ch _ =>
+      if String.eqb s "<" || String.eqb s ">" || String.eqb s "="
+      then negb (Ascii.eqb "<" ch || Ascii.eqb ">" ch || Ascii.eqb "=" ch)
+      else if String.eqb s "-" then negb (is_idchar ch) else true
+  end.
+Definition str_char_ok (x : ascii) : bool := negb (Ascii.eqb x "'") && negb (Ascii.eqb x newline_char).
+Fixpoint all_chars (p : ascii -> bool) (s : string) : bool :=
+  match s with EmptyString => true | String ch r => p ch && all_chars p r end.
+Definition op_names (c : tcfg) : list string :=
+  map (fun ch => String ch EmptyString) other1 ++ (if fx_ops c then ["~"] else []) ++ other_rest.
+(* FLOAT spellings: the number lexer consumes all of it as one FLOAT, or (fixed) "-inf" *)
+Definition num_ok (c : tcfg) (sg body : string) : bool :=
+  match lex_number c sg body with
+  | Some (TFloat x, EmptyString) => String.eqb x (sg ++ body)
+  | _ => false
+  end.
+Definition float_ok (c : tcfg) (s : string) : bool :=
+  match s with
+  | String ch r => if Ascii.eqb ch "-" then (fx_float c && String.eqb r "inf") || num_ok c "-" r
+                   else num_ok c "" s
+  | EmptyString => false
+  end.
+Definition tok_ok (c : tcfg) (t : token) : bool :=
+  match t with
+  | TId s => is_ident s
+  | TInt _ => true
+  | TFloat s => float_ok c s
+  | TStr s => all_chars str_char_ok s
+  | TOp s => mem_str s (op_names c)
+  end.
+Definition sep_ok (t : token) (rest : string) : bool :=
+  match t with
+  | TId _ | TInt _ | TFloat _ => sep_word rest
+  | TStr _ => true
+  | TOp s => sep_op s rest
+  end.
+Fixpoint lay_ok (c : tcfg) (l : list ltok) : bool :=
+  match l with
+  | [] => true
+  | x :: r => match x with LT t => tok_ok c t && sep_ok t (render r) | _ => true end && lay_ok c r
+  end.
+(* names and spellings of a raw module are lexable *)
+Definition rlex_cst (c : tcfg) (k : rcst) : bool :=
+  match k with
+  | RInt _ => true
+  | RFloat s => if String.eqb s "inf" || String.eqb s "nan" then true else float_ok c s
+  end.
+Definition rlex_instr (c : tcfg) (i : rinstr) : bool :=
+  match i with
+  | RConst _ n k => is_ident n && rlex_cst c k
+  | RBinop _ n a _ b => is_ident n && is_ident a && is_ident b
+  | RUnop _ n o a => is_ident n && is_ident a && match o with Inv => fx_ops c | Neg => true end
+  | RCast _ n a | RLoad _ n a | RAddrOf _ n a => is_ident n && is_ident a
+  | RStore x a => is_ident x && is_ident a
+  | RAlloc _ n _ _ => is_ident n
+  | RLit _ n h => is_ident n && all_chars str_char_ok h
+  | RCopyBlob d s _ => is_ident d && is_ident s
+  | RPhi _ n ins => is_ident n && forallb (fun p => is_ident (fst p) && is_ident (snd p)) ins
+  | RUndef n => is_ident n
+  | RCallF _ n f args => is_ident n && is_ident f && forallb is_ident args
+  | RCallP f args => is_ident f && forallb is_ident args
+  | RJump b => is_ident b
+  | RCJump a _ b y n => is_ident a && is_ident b && is_ident y && is_ident n
+  | RReturn a => is_ident a
+  | RExit => true
+  end.
+Definition rlex_item (c : tcfg) (x : ritem) : bool :=
+  match x with
+  | RExt e => is_ident (ext_name e)
+  | RVar g => is_ident (rv_name g)
+              && match rv_value g with
+                 | Some l => forallb (fun i => match i with RBytes h => all_chars str_char_ok h | RRef s => is_ident s end) l
+                 | None => true
+                 end
+  | RFunc f => is_ident (rf_name f) && forallb (fun p => is_ident (snd p)) (rf_params f)
+               && forallb (fun k => is_ident (rb_name k) && forallb (rlex_instr c) (rb_ins k)) (rf_blocks f)
+  end.
+Definition rlex_ok (c : tcfg) (m : rmodul) : bool := is_ident (rm_name m) && forallb (rlex_item c) (rm_items m).
+
 (* ------------------------------------------------------------------ printable: what the format carries *)
 (* raw level (what [parse] needs): *)
 Definition kw6 : list string := ["phi"; "alloc"; "load"; "cast"; "call"; "literal"].
@@ -991,11 +1091,6 @@ Definition rsize (m : rmodul) : nat :=
 
 (* module level: characters (names must be identifiers, float texts must be lexemes), the
    constructor checks of ppci.ir, and the exclusions that are findings *)
-Definition is_ident (s : string) : bool :=
-  match s with
-  | EmptyString => false
-  | String ch r => is_alpha ch && match span is_idchar r with (_, EmptyString) => true | _ => false end
-  end.
 Definition float_lexeme (c : tcfg) (s : string) : bool :=
   if String.eqb s "inf" || String.eqb s "nan" then fx_float c
   else match lex c s with Ok [TFloat x] => String.eqb x s | _ => false end.
@@ -1051,7 +1146,7 @@ Definition printable_func (c : tcfg) (fr : Z -> string) (fp : string -> option Z
   && forallb (rprintable_instr c) (map (erase_instr fr f) (func_instrs f))
   && ((fx_ru_generic c && fx_ru_phi c && fx_ru_call c) || no_fwd_double 1 (func_instrs f)).
 Definition printable (c : tcfg) (fr : Z -> string) (fp : string -> option Z) (m : modul) : bool :=
-  print_ok c m && is_ident (m_name m)
+  print_ok c m && rlex_ok c (erase fr c m) && is_ident (m_name m)
   && forallb (fun e => is_ident (ext_name e)) (m_externals m)
   && forallb (fun g => is_ident (g_name g)
                        && match g_value g with
